@@ -1652,9 +1652,13 @@ impl<S: Storage> Validator<S> {
                             );
                         }
                     } else {
-                        let comparing_content_paths =
-                            comparing_inventory.content_paths(comparing_digest).unwrap();
-                        let content_paths = inventory.content_paths(digest).unwrap();
+                        // A digest that the manifest declares with an empty list of content
+                        // paths has no entry here
+                        let no_paths = HashSet::new();
+                        let comparing_content_paths = comparing_inventory
+                            .content_paths(comparing_digest)
+                            .unwrap_or(&no_paths);
+                        let content_paths = inventory.content_paths(digest).unwrap_or(&no_paths);
 
                         if comparing_content_paths.len() == 1 {
                             if comparing_content_paths != content_paths {
